@@ -9,8 +9,7 @@ from . import stft_common as sc
 PROP = "C01"
 MODULES = ["PdsVerif.Props.C01"]
 MODEL_MODULES = ["PdsVerif.Model.StftDrv"]
-REQUIRED = []  # filled in below once proved
-REQUIRED_LATER = ["PdsVerif.C01." + n for n in ["stft_stream_eq_full", "stft_fbf_eq_full", "stft_features_stream_eq_full"]]
+REQUIRED = ["PdsVerif.C01." + n for n in ["stft_stream_eq_full", "stft_fbf_eq_full", "stft_features_stream_eq_full", "stft_full_frames_length", "stft_full_count", "stft_state_canonical"]]
 RULE = (
     "STFT: (frame_length L, frame_shift S<=L, style, kaldi_shift, integer window) x signal length N (0, 1, S//2, L//2, "
     "L//2+1, L, multiples of S, up to 3L+2) x chunking (random compositions with empty and single-sample chunks; all "
